@@ -10,7 +10,8 @@ Import ListNotations.
 Fixpoint expr_ok (e : expr) : Prop :=
   match e with
   | ENum z => in64 z = true
-  | EBool _ | EStr _ => True
+  | EBool _ => True
+  | EStr s => (N.of_nat (length s) <= 1048576)%N           (* a literal of at most 1 MiB (source spelling) *)
   | EVar x => user_name x
   | EUn _ a => expr_ok a
   | EBin _ a b => expr_ok a /\ expr_ok b
@@ -20,6 +21,9 @@ Fixpoint expr_ok (e : expr) : Prop :=
                (fix go (l : list expr) : Prop := match l with [] => True | a :: r => expr_ok a /\ go r end) es
   | EAt a i => expr_ok a /\ expr_ok i
   | ELen a => expr_ok a
+  | EStr1 _ a => expr_ok a
+  | EStr2 _ a b => expr_ok a /\ expr_ok b
+  | ESubstr a b c => expr_ok a /\ expr_ok b /\ expr_ok c
   end.
 Definition exprs_ok : list expr -> Prop :=
   fix go (l : list expr) : Prop := match l with [] => True | a :: r => expr_ok a /\ go r end.
@@ -39,7 +43,8 @@ Fixpoint stmt_ok (s : stmt) : Prop :=
 (* expr_ok / stmt_ok contain the literal-size condition the well-formedness of the emitted code needs *)
 Lemma expr_ok_lit_small e : expr_ok e -> lit_small e.
 Proof.
-  induction e as [z|b|s|x|o a IHa|o a b IHa IHb|f args IHargs|c0 a b IHc IHa IHb|es IHes|a i IHa IHi|a IHa] using expr_ind2;
+  induction e as [z|b|s|x|o a IHa|o a b IHa IHb|f args IHargs|c0 a b IHc IHa IHb|es IHes|a i IHa IHi|a IHa
+                  |so a IHa|so a b IHa IHb|a b c1 IHa IHb IHc] using expr_ind2;
     cbn [expr_ok lit_small]; try tauto.
   - induction IHargs as [|a r Ha _ IH]; [tauto|]. intros [H1 H2]. split; [apply Ha; exact H1|apply IH; exact H2].
   - intros [Hn H]. split; [exact Hn|]. clear Hn. induction IHes as [|a r Ha _ IH]; [exact I|].
